@@ -3,7 +3,7 @@
 # (scratch worktrees via try_patch.sh; /repo and evidence untouched).  Writes seeded/REGRESSION.txt.
 cd "$(dirname "$0")/.."
 jobs=${1:-2}
-out=seeded/REGRESSION.txt
+out=${REGRESSION_OUT:-seeded/REGRESSION.txt}
 tmp=$(mktemp -d /tmp/reseed.XXXXXX)
 ls -d seeded/*/ | while read d; do
   d=${d%/}
